@@ -401,9 +401,18 @@ def c19_d(ctx):
         exf = ctx.ex(f)
         ifs = [n for n in own_nodes(f.node) if isinstance(n, ast.If)]
         ok = False
-        for n in ifs:
-            tt = exf.term(n.test)
-            parts = list(tt[2]) if tt[0] == 'bool' and tt[1] == 'and' else [tt]
+        counts = [n for n in own_nodes(f.node) if isinstance(n, ast.AugAssign) and
+                  isinstance(n.op, ast.Add) and exf.raw(n.value) == ('const', 1)]
+        for cnt in counts:
+            # the atomic conditions under which the count is incremented (nested ifs and a
+            # conjunction are the same thing)
+            parts = []
+            for (t_, pol_, _) in ctx.guards(f, cnt):
+                if pol_ and t_[0] not in ('bool', 'unary') and t_ not in parts:
+                    parts.append(t_)
+            n = cnt._parent if isinstance(getattr(cnt, '_parent', None), ast.If) else None
+            if n is None:
+                continue
             ind = [p for p in parts if match(p, pattern('self.funcs[_i](theta) <= self.eps_cutoff'))
                    is not None]
             reg = [p for p in parts if match(p, pattern('self.regions[_i].contains(theta)'))
